@@ -15,6 +15,8 @@ theorem runRules_unfold {o : Opts} {iterate : Bool} {sg dg : Graph} {rx : Regex}
       c.sg = sg ∧ c.iterate = iterate ∧ gatherRules sg c.shapes constructs fromShapes = .ok groups ∧
       applyRules c groups dg = .ok g' := by
   unfold runRules at h
+  split at h
+  · cases h
   cases hs : rulesShapes sg useShapes with
   | error e => simp [hs] at h
   | ok pr =>
